@@ -1,97 +1,180 @@
 ---- MODULE TrieKV ----
-(* C17 design: a state trie (store/trie Trie / SecureTrie over store.TrieDatabase over BeansDB).
+(* C17 design: state tries (store/trie Trie / SecureTrie over store.TrieDatabase over BeansDB).
 
-   kv      the content - what reads must return and what the root commits to
+   Several trie HANDLES (Go objects) are alive at once over one TrieDatabase: the trie an account manager
+   works on, a Copy() of it, a second trie opened from the same committed root, a trie opened from an older
+   root.  The node graphs behind the handles are persistent structures that share nodes (a copy shares every
+   loaded node with its origin, an update rebuilds only the path it touches); the property speaks about
+   every handle separately:
+
+   live    the handle slots in use (1..NH; slot 1 is the trie every behaviour starts with)
+   kv[h]   the content of handle h - what ITS reads must return and what ITS root commits to, whatever is
+           done through the other handles
    Shape   (derived) the node structure; the clauses below show by induction that the structure the
            implementation's insert / delete (TrieKVOps.Ins / Del) produce is always Canon(content)
-   tag     where the root of the CURRENT content can be loaded from:
-             "dirty" nowhere, "mem" the TrieDatabase node cache (Trie.Commit), "disk" BeansDB
-             (TrieDatabase.Commit)
-   old     up to MaxOld older committed contents (most recent first) that can be reopened
+   tag[h]  where the root of the CURRENT content of h can be loaded from (a fact about the content, shared by
+           all handles with that content): "dirty" nowhere, "mem" the TrieDatabase node cache (Trie.Commit),
+           "disk" BeansDB (TrieDatabase.Commit)
+   old     up to MaxOld committed contents no live handle has any more (most recent first); they can be reopened
+   link    pairs of live handles that are the same Go object by descent: one is a Copy of the other (or of a copy
+           of it ...) and neither was re-created from a root since.  Only bookkeeping: it makes "operate on one
+           of two handles that share nodes" a situation of its own in the state graph, so that every operation
+           is replayed in it.
    kind/lim   plain Trie or SecureTrie, cache limit (generations kept in memory) - fixed per behaviour
 
-   One action per API call.  Hash / Get / Commit / ProveAll / Reopen leave the content alone: in the
-   implementation they rewrite the in-memory node graph (hash caching, on-demand loading, unloading of
-   old cache generations), which is exactly what must not show in reads or roots.  The conformance
-   run logs the real root and all reads after every step; TraceTrieKV decides "root is a function of
-   content" over all replayed paths. *)
+   One action per API call, on a chosen handle.  Hash / Get / Commit / ProveAll / Reopen / Copy / Open leave
+   every content alone: in the implementation they rewrite the in-memory node graph (hash caching, on-demand
+   loading, unloading of old cache generations), which is exactly what must not show in reads or roots of ANY
+   handle.  Put / Remove change the content of the handle they name and of no other (OneHandleChanges).
+   The conformance run logs, after every step, the real root, all reads and the node paths of EVERY live handle
+   and of a snapshot (copy) of the handle operated on taken just before the call; TraceTrieKV requires each of
+   them to be the function of that handle's own content and decides "root is a function of content" over all
+   replayed paths. *)
 EXTENDS TrieKVOps
-CONSTANTS Keys, Vals, Path, Variants, MaxOld, ReopenModes, Merge, Ticking
-VARIABLES kind, lim, kv, tag, old, tick
-vars == <<kind, lim, kv, tag, old, tick>>
-svars == <<kind, lim, kv, tag, old>>
+CONSTANTS Keys, Vals, Path, Variants, MaxOld, ReopenModes, Merge, Ticking,
+          NH,          \* number of handle slots
+          Vias,        \* ways to remove a key: "delete" = TryDelete, "empty" = TryUpdate with an empty value
+          Flushes      \* Commit(h, f) for f \in Flushes (TRUE: followed by TrieDatabase.Commit)
+VARIABLES kind, lim, live, kv, tag, old, link, tick
+vars == <<kind, lim, live, kv, tag, old, link, tick>>
+svars == <<kind, lim, live, kv, tag, old, link>>
 \* Ticking = TRUE (simulation configs) makes every call a visible step, also those that leave the content alone
 Tick == tick' = IF Ticking THEN tick + 1 ELSE tick
 
+Handles == 1..NH
 Contents == [Keys -> Vals \cup {NONE}]
 Empty == [k \in Keys |-> NONE]
 Rank(t) == IF t = "disk" THEN 2 ELSE IF t = "mem" THEN 1 ELSE 0
 Best(a, b) == IF Rank(a) >= Rank(b) THEN a ELSE b
 
 Init == /\ \E v \in Variants : kind = v[1] /\ lim = v[2]          \* <<"plain" | "secure", cache limit>>
-        /\ kv = Empty /\ tag = "dirty" /\ old = <<>> /\ tick = 0
+        /\ live = {1} /\ kv = [h \in Handles |-> Empty] /\ tag = [h \in Handles |-> "dirty"]
+        /\ old = <<>> /\ link = {} /\ tick = 0
 
-\* where content c can be loaded from, given the bookkeeping
+\* ---- bookkeeping: where a content can be loaded from ------------------------------------------------
 OldTag(o, c) == IF \E i \in 1..Len(o) : o[i].c = c THEN (CHOOSE e \in {o[i] : i \in 1..Len(o)} : e.c = c).t ELSE "dirty"
 Without(o, c) == SelectSeq(o, LAMBDA e : e.c # c)
-\* the content moves from kv to c2: remember kv if it was committed, look c2 up
-Move(c2) ==
-  IF c2 = kv THEN UNCHANGED <<tag, old>>
-  ELSE LET o1 == IF tag = "dirty" THEN old ELSE <<[c |-> kv, t |-> Best(tag, OldTag(old, kv))]>> \o Without(old, kv)
-       IN /\ tag' = OldTag(o1, c2)
-          /\ old' = Take(Without(o1, c2), IF Len(Without(o1, c2)) < MaxOld THEN Len(Without(o1, c2)) ELSE MaxOld)
+Trunc(o) == Take(o, IF Len(o) < MaxOld THEN Len(o) ELSE MaxOld)
+Holds(S, c) == \E g \in S : kv[g] = c
+\* the handles of S give up their contents (keep: the handles that stay as they are): old, with the committed
+\* contents nobody holds any more in front (ascending handle order, every content once)
+Retire(S, keep) ==
+  LET hs == SelectSeq([i \in 1..NH |-> i], LAMBDA g : /\ g \in S /\ tag[g] # "dirty" /\ ~Holds(keep, kv[g])
+                                                     /\ ~\E g2 \in S : g2 < g /\ kv[g2] = kv[g])
+      r == [i \in 1..Len(hs) |-> [c |-> kv[hs[i]], t |-> tag[hs[i]]]]
+  IN r \o SelectSeq(old, LAMBDA e : \A i \in 1..Len(r) : r[i].c # e.c)
+\* the tag of content c, known from a handle of keep that has it or from the list o
+Known(keep, o, c) == IF Holds(keep, c) THEN tag[CHOOSE g \in keep : kv[g] = c] ELSE OldTag(o, c)
+\* the content of h moves to c2: remember the old content if it was committed and nobody else has it, look c2 up
+Move(h, c2) ==
+  IF c2 = kv[h] THEN UNCHANGED <<tag, old>>
+  ELSE LET keep == live \ {h}
+           o1 == Retire({h}, keep)
+       IN /\ tag' = [tag EXCEPT ![h] = Known(keep, o1, c2)]
+          /\ old' = Trunc(Without(o1, c2))
 
-Put(k, v) == /\ kv' = PutKV(kv, k, v)
-             /\ Move(PutKV(kv, k, v)) /\ UNCHANGED <<kind, lim>> /\ Tick
+\* ---- operations on a chosen handle ------------------------------------------------------------------
+Put(h, k, v) == /\ h \in live
+                /\ kv' = [kv EXCEPT ![h] = PutKV(kv[h], k, v)]
+                /\ Move(h, PutKV(kv[h], k, v)) /\ UNCHANGED <<kind, lim, live, link>> /\ Tick
 \* via = "delete": TryDelete;  via = "empty": TryUpdate with an empty value
-Remove(k, via) == /\ kv' = DelKV(kv, k)
-                  /\ Move(DelKV(kv, k)) /\ UNCHANGED <<kind, lim>> /\ Tick
-Get(k) == UNCHANGED svars /\ Tick
-Hash == UNCHANGED svars /\ Tick
+Remove(h, k, via) == /\ h \in live
+                     /\ kv' = [kv EXCEPT ![h] = DelKV(kv[h], k)]
+                     /\ Move(h, DelKV(kv[h], k)) /\ UNCHANGED <<kind, lim, live, link>> /\ Tick
+Get(h, k) == h \in live /\ UNCHANGED svars /\ Tick
+Hash(h) == h \in live /\ UNCHANGED svars /\ Tick
 \* Trie.Commit (nodes into the TrieDatabase cache, cache generation + 1, old generations unloaded),
 \* flush: followed by TrieDatabase.Commit(root) as account.Manager.Save / StorageCache.Save do
-Commit(flush) == /\ tag' = IF flush THEN "disk" ELSE Best(tag, "mem")
-                 /\ UNCHANGED <<kind, lim, kv, old>> /\ Tick
-\* a new trie object from the root of the current (i = 0) or an older committed content;
+Commit(h, flush) ==
+  LET t == IF flush THEN "disk" ELSE Best(tag[h], "mem") IN
+  /\ h \in live
+  /\ tag' = [g \in Handles |-> IF g \in live /\ kv[g] = kv[h] THEN t ELSE tag[g]]
+  /\ UNCHANGED <<kind, lim, live, kv, old, link>> /\ Tick
+\* handle h becomes a new trie object made from the root of its current (i = 0) or an older committed content;
 \* mode "same": on the same TrieDatabase, "fresh": on a new TrieDatabase over the same BeansDB,
-\* "restart": after closing and re-opening the chain database directory
-Reopen(i, mode) ==
-  LET c == IF i = 0 THEN kv ELSE old[i].c
-      t == IF i = 0 THEN tag ELSE old[i].t
-      o1 == IF i = 0 \/ tag = "dirty" THEN old ELSE <<[c |-> kv, t |-> tag]>> \o old
+\* "restart": after closing and re-opening the chain database directory.  A new TrieDatabase is the end of
+\* all other handles (one TrieDatabase at a time).
+Reopen(h, i, mode) ==
+  LET c == IF i = 0 THEN kv[h] ELSE old[i].c
+      t == IF i = 0 THEN tag[h] ELSE old[i].t
+      keep == IF mode = "same" THEN live \ {h} ELSE {}
+      o1 == Retire((live \ keep) \ (IF i = 0 THEN {h} ELSE {}), keep \cup (IF i = 0 THEN {h} ELSE {}))
       o2 == Without(o1, c)
       o3 == IF mode = "same" THEN o2 ELSE SelectSeq(o2, LAMBDA e : e.t = "disk")   \* the node cache is gone
-  IN /\ i <= Len(old)
+  IN /\ h \in live /\ i <= Len(old)
      /\ IF mode = "same" THEN t # "dirty" ELSE t = "disk"
-     /\ kv' = c /\ tag' = t
-     /\ old' = Take(o3, IF Len(o3) < MaxOld THEN Len(o3) ELSE MaxOld)
+     /\ live' = keep \cup {h}
+     /\ kv' = [g \in Handles |-> IF g = h THEN c ELSE IF g \in keep THEN kv[g] ELSE Empty]
+     /\ tag' = [g \in Handles |-> IF g = h THEN t ELSE IF g \in keep THEN tag[g] ELSE "dirty"]
+     /\ old' = Trunc(o3)
+     /\ link' = {p \in link : p \subseteq keep}
      /\ UNCHANGED <<kind, lim>> /\ Tick
-\* build and check proofs for every key from the nodes reachable from the current root
-ProveAll == tag # "dirty" /\ UNCHANGED svars /\ Tick
+\* build and check proofs for every key from the nodes reachable from the root of h's content
+ProveAll(h) == h \in live /\ tag[h] # "dirty" /\ UNCHANGED svars /\ Tick
 
-Next == \/ \E k \in Keys, v \in Vals : Put(k, v)
-        \/ \E k \in Keys, via \in {"delete", "empty"} : Remove(k, via)
-        \/ \E k \in Keys : Get(k)
-        \/ Hash
-        \/ \E f \in BOOLEAN : Commit(f)
-        \/ \E i \in 0..MaxOld, m \in ReopenModes : Reopen(i, m)
-        \/ ProveAll
+\* ---- more handles -----------------------------------------------------------------------------------
+\* SecureTrie.Copy() / struct copy of a Trie: a second object that shares every loaded node with src
+Copy(src, dst) ==
+  /\ src \in live /\ dst \in Handles \ live
+  /\ live' = live \cup {dst}
+  /\ kv' = [kv EXCEPT ![dst] = kv[src]] /\ tag' = [tag EXCEPT ![dst] = tag[src]]
+  /\ link' = link \cup {{src, dst}} \cup {{g, dst} : g \in {x \in live : {x, src} \in link}}
+  /\ UNCHANGED <<kind, lim, old>> /\ Tick
+\* a second trie from the committed root of src's content, through the same TrieDatabase
+Open(dst, src) ==
+  /\ src \in live /\ dst \in Handles \ live /\ tag[src] # "dirty"
+  /\ live' = live \cup {dst}
+  /\ kv' = [kv EXCEPT ![dst] = kv[src]] /\ tag' = [tag EXCEPT ![dst] = tag[src]]
+  /\ UNCHANGED <<kind, lim, old, link>> /\ Tick
+\* a second trie from an older committed root (the trie went on, the old root is read again), same TrieDatabase
+OpenOld(dst, i) ==
+  /\ dst \in Handles \ live /\ i \in 1..Len(old)
+  /\ live' = live \cup {dst}
+  /\ kv' = [kv EXCEPT ![dst] = old[i].c] /\ tag' = [tag EXCEPT ![dst] = old[i].t]
+  /\ old' = Without(old, old[i].c)
+  /\ UNCHANGED <<kind, lim, link>> /\ Tick
+\* the object is dropped
+Close(h) ==
+  /\ h \in live /\ live # {h}
+  /\ live' = live \ {h}
+  /\ kv' = [kv EXCEPT ![h] = Empty] /\ tag' = [tag EXCEPT ![h] = "dirty"]
+  /\ old' = Trunc(Retire({h}, live \ {h}))
+  /\ link' = {p \in link : h \notin p}
+  /\ UNCHANGED <<kind, lim>> /\ Tick
+
+Next == \/ \E h \in Handles, k \in Keys, v \in Vals : Put(h, k, v)
+        \/ \E h \in Handles, k \in Keys, via \in Vias : Remove(h, k, via)
+        \/ \E h \in Handles, k \in Keys : Get(h, k)
+        \/ \E h \in Handles : Hash(h)
+        \/ \E h \in Handles, f \in Flushes : Commit(h, f)
+        \/ \E h \in Handles, i \in 0..MaxOld, m \in ReopenModes : Reopen(h, i, m)
+        \/ \E h \in Handles : ProveAll(h)
+        \/ \E s \in Handles, d \in Handles : Copy(s, d)
+        \/ \E s \in Handles, d \in Handles : Open(d, s)
+        \/ \E d \in Handles, i \in 1..MaxOld : OpenOld(d, i)
+        \/ \E h \in Handles : Close(h)
 Spec == Init /\ [][Next]_vars
 
 \* ---- clauses ------------------------------------------------------------------------------------
 \* The node structure depends on the content only, not on the order of insertions and deletions:
-\* the empty trie is canonical, a reopened trie is what was stored, and from the canonical structure of ANY
-\* content every insert and every delete of the implementation leads to the canonical structure of the new
-\* content.  Checked on every reachable content.
-Shape == Canon(Pairs(Path, kv))
-InsertKeepsCanonical == \A k \in Keys, v \in Vals : Ins(Shape, Path[k], V(v)) = Canon(Pairs(Path, PutKV(kv, k, v)))
-DeleteKeepsCanonical == \A k \in Keys : Del(Shape, Path[k], Merge) = Canon(Pairs(Path, DelKV(kv, k)))
-\* reads return the last value written
-ReadsLastWritten == \A k \in Keys : Look(Shape, Path[k]) = kv[k]
+\* the empty trie is canonical, a reopened / copied trie is what was stored, and from the canonical structure of
+\* ANY content every insert and every delete of the implementation leads to the canonical structure of the new
+\* content.  Checked on every reachable content of every handle.
+Shape(h) == Canon(Pairs(Path, kv[h]))
+InsertKeepsCanonical == \A h \in live, k \in Keys, v \in Vals : Ins(Shape(h), Path[k], V(v)) = Canon(Pairs(Path, PutKV(kv[h], k, v)))
+DeleteKeepsCanonical == \A h \in live, k \in Keys : Del(Shape(h), Path[k], Merge) = Canon(Pairs(Path, DelKV(kv[h], k)))
+\* reads return the last value written through this handle
+ReadsLastWritten == \A h \in live, k \in Keys : Look(Shape(h), Path[k]) = kv[h][k]
 \* different contents have different structures, hence (free hash) different roots; checked once
-RootBindsContent == (kv = Empty /\ tag = "dirty") =>
+RootBindsContent == (live = {1} /\ kv[1] = Empty /\ tag[1] = "dirty") =>
                       Cardinality({Canon(Pairs(Path, c)) : c \in Contents}) = Cardinality(Contents)
-TypeOK == /\ kv \in Contents /\ tag \in {"dirty", "mem", "disk"} /\ Len(old) <= MaxOld
-          /\ \A i \in 1..Len(old) : old[i].c \in Contents /\ old[i].c # kv /\ old[i].t \in {"mem", "disk"}
+\* a step changes the content of at most one of the handles that stay: handles are independent tries
+OneHandleChanges == [][Cardinality({h \in live \cap live' : kv'[h] # kv[h]}) <= 1]_vars
+TypeOK == /\ live \subseteq Handles /\ live # {} /\ kv \in [Handles -> Contents] /\ Len(old) <= MaxOld
+          /\ \A h \in Handles : tag[h] \in {"dirty", "mem", "disk"}
+          /\ \A h \in Handles \ live : kv[h] = Empty /\ tag[h] = "dirty"
+          /\ \A g, h \in live : kv[g] = kv[h] => tag[g] = tag[h]          \* the tag is a fact about the content
+          /\ \A i \in 1..Len(old) : old[i].c \in Contents /\ ~Holds(live, old[i].c) /\ old[i].t \in {"mem", "disk"}
           /\ \A i, j \in 1..Len(old) : i # j => old[i].c # old[j].c
+          /\ \A p \in link : p \subseteq live /\ Cardinality(p) = 2
 ====
